@@ -103,8 +103,8 @@ theorem InvA.runCont {cfg : Cfg} {s : St} (i : InvA cfg s) (t : Tid) (c : Cont) 
   | monitorTail => exact InvA.of_core (s := s) rfl i
   | closingTail => exact InvA.of_core (s := s) rfl i
   | userTail u r =>
-      have := i.emit_neutral (o := .ret u r) rfl
-      exact InvA.of_core (s := s.emit (.ret u r)) rfl this
+      have := i.emit_neutral (o := .ret u r.toRes) rfl
+      exact InvA.of_core (s := s.emit (.ret u r.toRes)) rfl this
 
 /-- what `execClose` needs of the state it starts from: the body is in progress, nothing of the
     closing sequence is in the trace yet -/
@@ -323,9 +323,11 @@ theorem stepDisp_J {cfg : Cfg} {J : St → Prop} (h : CoreInv cfg J) {s : St} (i
   · rename_i hq
     have hq' : s.qClosed = false := by simpa using hq
     split
-    · inva i
-    · apply dispHandle_J h
-      exact h.of_core (s := s.emit (.msgEnter _)) rfl (h.emit_msgEnter _ _ hq' i)
+    · exact i
+    · split
+      · inva i
+      · apply dispHandle_J h
+        exact h.of_core (s := s.emit (.msgEnter _)) rfl (h.emit_msgEnter _ _ hq' i)
 
 theorem stepMon_J {cfg : Cfg} {J : St → Prop} (h : CoreInv cfg J) {s : St} (i : J s) (b : Bool) : J (stepMon cfg s b) := by
   unfold stepMon
@@ -342,7 +344,7 @@ theorem loginResume_J {cfg : Cfg} {J : St → Prop} (h : CoreInv cfg J) {s : St}
   unfold loginResume
   split
   · rename_i n _
-    have i1 : J ((({ s with vres := none, rcvBusy := false, taken := s.taken ++ [n] } : St)).emit (.loginReply n)) := by inva i
+    have i1 : J ((({ s with vres := none, rcvBusy := false, gone := s.gone ++ [(n, true)] } : St)).emit (.loginReply n)) := by inva i
     simp only
     split
     · have i2 := h.of_core (core_startDispatching _ cfg) (h.of_core (core_startHeartbeats _) i1)
@@ -385,7 +387,9 @@ theorem stepRun_J {cfg : Cfg} {J : St → Prop} (h : CoreInv cfg J) {s : St} (i 
         · exact i0
     · exact h.enterClose' i0 _ _
     · exact h.stepInClose' i0 _ _
-    · split <;> inva i0
+    · split
+      · inva i0
+      · split <;> inva i0
     · split
       · inva i0
       · split <;> inva i0
@@ -438,10 +442,12 @@ theorem step_J {cfg : Cfg} {J : St → Prop} (h : CoreInv cfg J) {s : St} (i : J
   | callRecvNowait u =>
     simp only [step]
     split
-    · inva i
+    · exact i
     · split
       · inva i
-      · split <;> inva i
+      · split
+        · inva i
+        · split <;> inva i
   | callLogin u =>
     simp only [step]
     split
